@@ -284,6 +284,10 @@ class FuncInfo(object):
 #   C3  `x = x <op> E` for a local name x                 ->  `x <op>= E`
 #   C4  `x: T = E` (annotated assignment with a value)    ->  `x = E`
 #   C5  `a < b` / `a <= b` (single comparison)            ->  `b > a` / `b >= a`
+#   C6  `t = E` immediately followed by a statement in which t (bound once, read
+#       once in the function) is the first thing evaluated apart from plain
+#       name / attribute / constant loads                 ->  E substituted for t
+#       (generalises C1: "extract variable" and its inverse look the same)
 # Line numbers of the surviving nodes are kept.
 
 def _name_uses(fn):
@@ -314,6 +318,112 @@ def _canon_blocks(node):
     yield c.body
 
 
+def _eval_order(e):
+  """Sub-expressions of e in (approximate) evaluation order, parents after
+  their operands; lambdas / comprehensions are opaque."""
+  out = []
+
+  def go(n):
+    if isinstance(n, (ast.Lambda, ast.GeneratorExp, ast.ListComp, ast.SetComp,
+                      ast.DictComp)):
+      out.append(n)
+      return
+    if isinstance(n, ast.Call):
+      go(n.func)
+      for a in n.args:
+        go(a)
+      for k in n.keywords:
+        go(k.value)
+    elif isinstance(n, ast.IfExp):
+      go(n.test)
+      go(n.body)
+      go(n.orelse)
+    elif isinstance(n, ast.Dict):
+      for k, v in zip(n.keys, n.values):
+        if k is not None:
+          go(k)
+        go(v)
+    else:
+      for c in ast.iter_child_nodes(n):
+        if isinstance(c, ast.expr):
+          go(c)
+    out.append(n)
+  go(e)
+  return out
+
+
+def _first_use_expr(st):
+  """The expression of statement st that is evaluated first (None if the
+  statement kind is not handled)."""
+  if isinstance(st, (ast.Return, ast.Expr)):
+    return st.value
+  if isinstance(st, ast.Assign) and all(isinstance(t, ast.Name)
+                                        for t in st.targets):
+    return st.value
+  if isinstance(st, ast.If):
+    return st.test
+  if isinstance(st, ast.Raise):
+    return st.exc
+  return None
+
+
+def _inline_temp(name, value, st):
+  """C6: substitute `value` for the single load of `name` in st when that
+  load comes first in evaluation order (only plain loads before it).  Returns
+  True if done."""
+  e = _first_use_expr(st)
+  if e is None:
+    return False
+  order = _eval_order(e)
+  for n in order:
+    if isinstance(n, ast.Name) and n.id == name and isinstance(n.ctx, ast.Load):
+      break
+    if isinstance(n, (ast.Name, ast.Constant)):
+      continue
+    if isinstance(n, ast.Attribute) and isinstance(n.ctx, ast.Load):
+      continue
+    return False
+  else:
+    return False
+  # inside a short-circuit / conditional operand the evaluation would become
+  # conditional: only the first operand position is allowed
+  target = n
+  parent_of = {}
+  for p in ast.walk(e):
+    for c in ast.iter_child_nodes(p):
+      parent_of[id(c)] = p
+  cur = target
+  while id(cur) in parent_of:
+    p = parent_of[id(cur)]
+    if isinstance(p, ast.BoolOp) and p.values[0] is not cur:
+      return False
+    if isinstance(p, ast.IfExp) and p.test is not cur:
+      return False
+    if isinstance(p, (ast.Lambda, ast.GeneratorExp, ast.ListComp, ast.SetComp,
+                      ast.DictComp)):
+      return False
+    cur = p
+  if target is e:
+    if isinstance(st, (ast.Return, ast.Expr, ast.Assign)):
+      st.value = value
+    elif isinstance(st, ast.If):
+      st.test = value
+    elif isinstance(st, ast.Raise):
+      st.exc = value
+    return True
+  p = parent_of[id(target)]
+  for field, val in ast.iter_fields(p):
+    if val is target:
+      setattr(p, field, value)
+      return True
+    if isinstance(val, list):
+      for i, x in enumerate(val):
+        if x is target:
+          val[i] = value
+          return True
+  return False
+
+
 def _canon_function(fn):
   loads, stores = _name_uses(fn)
   stack = [fn]
@@ -337,13 +447,14 @@ def _canon_function(fn):
             loads.get(name, 0) == 0 and len(blk) > 1:
           del blk[i]
           continue
-        # C1
-        if single and i + 1 < len(blk) and isinstance(
-            blk[i + 1], ast.Return) and isinstance(
-                blk[i + 1].value, ast.Name) and blk[i + 1].value.id == name \
-            and loads.get(name, 0) == 1 and stores.get(name, 0) == 1:
-          blk[i + 1].value = st.value
+        # C1 / C6
+        if single and i + 1 < len(blk) and loads.get(name, 0) == 1 and \
+            stores.get(name, 0) == 1 and not isinstance(
+                st.value, (ast.Yield, ast.YieldFrom, ast.Await)) and \
+            _inline_temp(name, st.value, blk[i + 1]):
           del blk[i]
+          if i > 0:
+            i -= 1  # the statement before may now be inlinable too
           continue
         # C3
         if single and isinstance(st.value, ast.BinOp) and isinstance(
